@@ -147,7 +147,8 @@ def run_case(h, R, line, idx):
                    QQ_ENV=os.path.join(d, 'qq.env'), QQ_PLAN=os.path.join(d, 'qqplan'), QQ_COUNT=os.path.join(d, 'qqcount'))
         a, b = socket.socketpair()
         errf = open(os.path.join(d, 'stderr'), 'wb')
-        p = subprocess.Popen([h['exe']], stdin=b.fileno(), stdout=b.fileno(), stderr=errf, cwd=d, env=env, close_fds=True)
+        argv = [h['exe']] + (['mail.example.org', h['cp'], '/bin/true'] if cfg['auth'] == '1' else [])      # auth_setup(): domain, checkpassword, subprogram
+        p = subprocess.Popen(argv, stdin=b.fileno(), stdout=b.fileno(), stderr=errf, cwd=d, env=env, close_fds=True)
         b.close()
         a.setblocking(False)
         st = dict(clear=b'', tls=b'', closed=False, sslobj=None, inb=None, outb=None, hsraw=None, marks=[], garbled=False, dirty=None)
